@@ -2,14 +2,15 @@
 # usage: seed_vet.sh <prop id, e.g. c01> <A|B> [extra check ids...]   - vets one seeded change and runs the checks against it
 id=$1; ab=$2; shift 2
 ID=$(echo $id | tr a-z A-Z)
-src=/tmp/seed_${id}_out
-d=/var/tmp/mut_${id}${ab}
-log=/var/tmp/vet_${id}${ab}.log
+R=${SEED_ROUND:-}
+src=/tmp/seed${R}_${id}_out
+d=/var/tmp/mut${R}_${id}${ab}
+log=/var/tmp/vet${R}_${id}${ab}.log
 rm -rf $d; mkdir -p $d
 cp -r /repo/development /repo/include /repo/tools /repo/test /repo/external $d/
 # the agent's diff was made against an older HEAD: /var/tmp/rebased_<id><AB>.diff is its 3-way merge onto the current one
 # (development/ part applied with git apply --3way, single header re-joined); it applies without fuzz
-pf=$src/mutant${ab}.diff; [ -f /var/tmp/rebased_${id}${ab}.diff ] && pf=/var/tmp/rebased_${id}${ab}.diff
+pf=$src/mutant${ab}.diff; [ -f /var/tmp/rebased${R}_${id}${ab}.diff ] && pf=/var/tmp/rebased${R}_${id}${ab}.diff
 ( cd $d && patch -p1 -s -F0 < $pf ) > $log 2>&1 || { echo "PATCH-FAILED" >> $log; exit 1; }
 echo "patch=$pf" >> $log
 echo "== demo with change" >> $log
